@@ -540,11 +540,31 @@ def coq_example_cases():
     exp10 = collections.OrderedDict([
         (b"v", {"occ": [[b"1"]], "idx": [1]}), (b"c", {"occ": [[b"C"]], "idx": [2]}),
         (b"a", {"occ": [[b"a1", b"--x", b"-v", b"--", b"z"]], "idx": [3, 4, 5, 6, 7]})])
+    # UnparseYExamples.v HEx (C02_hyphen_positional_nonvacuous): hyphen / negative-number values of positionals
+    hc = {"name": b"p", "args": [
+        arg(b"v", short="v", action="count"), arg(b"o", long=b"opt", action="set"),
+        arg(b"p", flags={"hyphen"}), arg(b"n", flags={"negnum"})],
+        "groups": [], "subs": [], "settings": [], "aliases": []}
+    toks11 = [b"-v", b"--opt", b"X", b"--weird", b"-5"]
+    exp11 = collections.OrderedDict([
+        (b"v", {"occ": [[b"1"]], "idx": [1]}), (b"o", {"occ": [[b"X"]], "idx": [3]}),
+        (b"p", {"occ": [[b"--weird"]], "idx": [4]}), (b"n", {"occ": [[b"-5"]], "idx": [5]})])
+    toks12 = [b"-x", b"-v", b"-7"]
+    exp12 = collections.OrderedDict([
+        (b"p", {"occ": [[b"-x"]], "idx": [1]}), (b"v", {"occ": [[b"1"]], "idx": [2]}), (b"n", {"occ": [[b"-7"]], "idx": [3]})])
+    hsub = {"name": b"sub", "aliases": [], "args": [], "groups": [], "subs": [], "settings": []}
+    mc = {"name": b"p", "args": [arg(b"v", short="v", action="count"), arg(b"c"), arg(b"a", num=(1, None), flags={"hyphen"})],
+          "groups": [], "subs": [hsub], "settings": [], "aliases": []}
+    toks13 = [b"-v", b"C", b"--foo", b"-v", b"--", b"sub"]
+    exp13 = collections.OrderedDict([
+        (b"v", {"occ": [[b"1"]], "idx": [1]}), (b"c", {"occ": [[b"C"]], "idx": [2]}),
+        (b"a", {"occ": [[b"--foo", b"-v", b"--", b"sub"]], "idx": [3, 4, 5, 6]})])
     out = []
     for c, toks, lv in ((one, toks1, [(exp1, None)]), (two, toks2, exp2), (one, toks3, [(exp3, None)]),
                         (order, toks4, [(exp4, None)]), (osc, toks5, [(exp5, None)]), (xc, toks6, exp6),
                         (xc1, toks7, [(exp7, None)]), (yc, toks8, [(exp8, None)]), (yc, toks9, [(exp9, None)]),
-                        (tc, toks10, [(exp10, None)])):
+                        (tc, toks10, [(exp10, None)]), (hc, toks11, [(exp11, None)]), (hc, toks12, [(exp12, None)]),
+                        (mc, toks13, [(exp13, None)])):
         argv = [b"p"] + toks
         base = gen_cmd.cmd_sx(c)
         body = base[:-1] + " (x-expect %s %s))" % (guard(base, argv), expect_sx(lv))
